@@ -183,6 +183,8 @@ def class_source(spec) -> str:
         if lv.get("hook") is not None:
             L.append("    @classmethod")
             L.append("    def __pre_deserialize__(cls, d):")
+            L.append("        if not isinstance(d, dict):")
+            L.append("            return d")
             L.append("        d = dict(d)")
             for op in lv["hook"]:
                 if op[0] == "drop":
@@ -1169,8 +1171,20 @@ def gen_deep(rng):
                 for g in decls:
                     g["dflt"] = None
                 break
-        return {"levels": [{"cls": cname, "decls": decls, "config": cfg(names, cname.lower())}], "classvar": [], "initvar": [],
-                "shape": "chain", "generic": False, "discr": None, "mixin": rng.choice([None, "dict"]), "inner": inner}
+        hook = None
+        if rng.random() < 0.4:
+            pool = list(names) + [f["meta"] for f in decls if f["meta"]] + ["legacy", "junk", "s1", "s2"]
+            hook = []
+            for _ in range(rng.choice([1, 1, 2])):
+                r = rng.random()
+                if r < 0.3:
+                    hook.append(("drop", rng.choice(pool)))
+                elif r < 0.45:
+                    hook.append(("put", rng.choice(pool), 950 + len(hook)))
+                else:
+                    hook.append(("rename", rng.choice(pool), rng.choice(pool)))
+        return {"levels": [{"cls": cname, "decls": decls, "config": cfg(names, cname.lower()), "hook": hook}], "classvar": [],
+                "initvar": [], "shape": "chain", "generic": False, "discr": None, "mixin": rng.choice([None, "dict"]), "inner": inner}
     n2 = mk("N2", ["r", "s"][:rng.choice([1, 2])], [("scalar",)] * 2, "int", None)
     n1_names = ["p", "q"][:rng.choice([1, 2, 2])]
     n1_types = [rng.choice([("scalar",), wrap(("cls", "N2"))]) for _ in n1_names]
@@ -1199,6 +1213,7 @@ def o_deep(classes, cname, d, top=True):
     spec = classes[cname]
     if not isinstance(d, dict):
         return ("fail",)
+    d = o_apply_hook(spec, d)          # the class's own __pre_deserialize__, on the mapping handed to this class
     acc = o_accepted(spec)
     extra = [k for k in d if k not in acc]
     if o_config(spec)["forbid"] and extra:
@@ -1295,16 +1310,17 @@ def deep_obs(v):
     return v
 
 
-def observe_deep(call, d):
+def observe_deep(call, d, seen=None):
     from mashumaro.exceptions import ExtraKeysError, InvalidFieldValue, MissingField
     import copy
+    seen = d if seen is None else seen
     try:
         obj = call(copy.deepcopy(d))
     except ExtraKeysError as e:
         ek = set(e.extra_keys)
-        if any(k not in d for k in ek):
+        if any(k not in seen for k in ek):
             return ("exc", f"ExtraKeysError.extra_keys {ek!r} is not a set of input keys")
-        return ("extra", [k for k in d if k in ek])
+        return ("extra", [k for k in seen if k in ek])
     except MissingField as e:
         return ("missing", e.field_name)
     except InvalidFieldValue as e:
@@ -1367,7 +1383,9 @@ def deep_stream(ctx, rng, k4_ok):
             c = classes[n]
             tys = "; ".join(f"({coq_str(f['name'])}, {ty_coq(f['t'], idx)})" for f in o_fields(c) if f["t"][0] != "scalar")
             tb.append(f"mkN (class_of {c_spec(c)} None) [{tys}]")
-        dtxt = f"Definition tb{ci} : list ncls := [{'; '.join(tb)}]."
+        hk = "[" + "; ".join(c_hooks(classes[n])[1:-1] for n in order) + "]"
+        ctx.hist("deep_hooks", " ".join(n for n in order if classes[n]["levels"][0].get("hook")) or "none")
+        dtxt = f"Definition tb{ci} : list ncls := [{'; '.join(tb)}].\nDefinition hk{ci} : list (option (list hookop)) := {hk}."
         dfl = "[" + "; ".join(f"({coq_str(f['name'])}, {c_val(o_default(f))})" for c in classes.values() for f in o_fields(c)
                               if f["dflt"] is not None) + "]"
         okeys = [k for k in candidate_keys(spec, rng, limit=6) if isinstance(k, str)]
@@ -1378,9 +1396,10 @@ def deep_stream(ctx, rng, k4_ok):
         for ks in [prim] * 6 + list(subsets(okeys, rng, ctx.budget(14, 58))):
             d = gen_deep_dict(classes, "K", rng, keys=list(ks))
             exp = o_deep(classes, "K", d)
+            seen = o_apply_hook(spec, d)
             obs0 = None
             for ename, call in ents:
-                obs = observe_deep(call, d)
+                obs = observe_deep(call, d, seen=seen)
                 ctx.count(("deep", ci, repr(d), ename))
                 ctx.hist("outcome", obs[0] + " (deep stream)")
                 obs0 = obs if obs0 is None else obs0
@@ -1398,18 +1417,18 @@ def deep_stream(ctx, rng, k4_ok):
                 co = "(DExtra [" + "; ".join(c_key(k) for k in obs0[1]) + "])"
             else:
                 co = '(DMissing "<unexpected exception>")'
-            items.append((ci, dtxt, f"(tb{ci}, {dfl}, [" + "; ".join(f"({c_key(k)}, {c_nv(v)})" for k, v in d.items()) + f"], {co})"))
+            items.append((ci, dtxt, f"(tb{ci}, hk{ci}, {dfl}, [" + "; ".join(f"({c_key(k)}, {c_nv(v)})" for k, v in d.items()) + f"], {co})"))
             shown.append((src, d, obs0))
         drop_module(mod)
-    okb = ("fun c => match c with (tb, dfl, d, o) => doutcome_eqb (dfl_of dfl) (deep_impl 12 tb 2 d) o "
-           "&& doutcome_eqb (dfl_of dfl) (deep_ref 12 tb 2 d) o end")
-    ctype = "list ncls * list (string * Z) * list (key * nv) * doutcome"
+    okb = ("fun c => match c with (tb, hk, dfl, d, o) => doutcome_eqb (dfl_of dfl) (deeph_impl 12 tb hk 2 d) o "
+           "&& doutcome_eqb (dfl_of dfl) (deeph_ref 12 tb hk 2 d) o end")
+    ctype = "list ncls * list (option (list hookop)) * list (string * Z) * list (key * nv) * doutcome"
     if k4_ok:
-        bad, log = coq_check("c09_deep", ("KeyModel KeyImpl KeyProofs KeyNested KeyDeep PyK_alias", "From VerifGen Require Import K4.",
-                                          ["theories/KeyDeep.vo"]), items, okb, ctx, ctype=ctype, shard=250)
+        bad, log = coq_check("c09_deep", ("KeyModel KeyImpl KeyProofs KeyNested KeyRewrite KeyDeep KeyDeepHook PyK_alias", "From VerifGen Require Import K4.",
+                                          ["theories/KeyDeepHook.vo"]), items, okb, ctx, ctype=ctype, shard=250)
     else:
         bad, log = None, "kernel K4 did not translate (KeyDeep is built on it)"
-    name = "deep: deep_impl(K4)/deep_ref-vs-from_dict"
+    name = "deep (+hooks on every class): deeph_impl(K4)/deeph_ref-vs-from_dict"
     if bad is None:
         ctx.correspondence(name, len(items), -1, log)
         ctx.not_shown("correspondence " + name, log)
@@ -1566,7 +1585,7 @@ def dc_check(ctx, dc_items, dc_shown):
 THEOREMS = ["K4_precedence", "K4_key_plan", "K4_allowed_keys", "C09_impl_is_code", "C09_keys", "C09_keys_hier",
             "C09_nearest_declaration", "C09_nearest_config", "C09_get_config", "C09_builder_config", "C09_fields_unique", "C09_alias_from_sources",
             "C09_mro_chain", "C09_mro_roots", "C09_own_view_finished", "C09_own_view_raw", "C09_nested", "C09_nested_inner_options", "C09_pre_hook", "C09_nearest_hook", "C09_hook_rename",
-            "C09_dc_lookup", "C09_dc_chain", "C09_dc_roots", "C09_dataclass_fields_dc", "C09_deep", "C09_deep_list", "C09_deep_map_keys",
+            "C09_dc_lookup", "C09_dc_chain", "C09_dc_roots", "C09_dataclass_fields_dc", "C09_deep", "C09_deep_list", "C09_deep_map_keys", "C09_deep_hooks", "C09_deep_no_hooks", "C09_inner_hook",
             "C09_field_key", "C09_outcome", "C09_alias_wins", "C09_fallback", "C09_accepted_covers_reads",
             "C09_reads_allowed", "C09_extra_members", "C09_extra_exact", "C09_ignored", "C09_forbidden_reported"]
 
@@ -1883,7 +1902,7 @@ def replay(rep: dict) -> int:
             sp = sp.get("inner")
         d = rep["input_deep"]
         call = mod.K.from_dict if rep["entry"] == "K.from_dict" else BasicDecoder(mod.K).decode
-        obs = observe_deep(call, d)
+        obs = observe_deep(call, d, seen=o_apply_hook(spec, d))
         exp = o_deep(deep_classes(spec), "K", d)
         def norm(o):
             return json.loads(json.dumps(o))
